@@ -44,9 +44,9 @@ def work(ctx):
                 ctx.case("ser_res ser_pycode (from_code_data cfg %s)" % E.g_cd(d), tres(e, E.t_pycode),
                          "from_code_data %s:%s" % (origin, k.co_name), "encode")
                 # the premise of the C01 theorem evaluated on this real code object (all nesting levels) and its conclusion
-                ctx.case("(let code := %s in ser_bool (rt_wf_deep cfg (PCode code)) ++ match to_code_data cfg code with "
+                ctx.case("(let code := %s in ser_bool (rt_wf_deep cfg (PCode code) && rt_extra_deep cfg (PCode code)) ++ match to_code_data cfg code with "
                          "OK d => match from_code_data cfg d with OK c2 => ser_bool (zlist_eqb (ser_pycode c2) (ser_pycode code)) | Err _ => [2] end "
-                         "| Err _ => [3] end)" % E.g_pycode(k), [1, 1], "rt_wf_deep and K3 conclusion on %s:%s" % (origin, k.co_name), "wf-monitor")
+                         "| Err _ => [3] end)" % E.g_pycode(k), [1, 1], "rt_wf_deep, rt_extra_deep and K3 conclusion on %s:%s" % (origin, k.co_name), "wf-monitor")
                 ncases += 1
             except E.Unsupported:
                 ctx.count("unsupported-constant")
